@@ -1,11 +1,11 @@
 package proxy
 
 import (
-	"time"
 	"context"
 	"errors"
 	"fmt"
 	"io"
+	"time"
 
 	"go.temporal.io/server/api/adminservice/v1"
 	replicationv1 "go.temporal.io/server/api/replication/v1"
@@ -61,15 +61,16 @@ func (s *fwInit) Send(m *adminservice.StreamWorkflowReplicationMessagesResponse)
 // fwSrc is the serving cluster's end (the client stream the proxy opens).
 type fwSrc struct {
 	grpc.ClientStream
-	ctx       context.Context
-	in        chan c06Event // what the source sends (replication messages) / how its side ends
-	got       []*adminservice.StreamWorkflowReplicationMessagesRequest
-	sendFail  bool
-	sendErr   error // what a failing Send reports (default errC06); grpc client streams report io.EOF once the stream is done
-	closeSend int
+	ctx             context.Context
+	in              chan c06Event // what the source sends (replication messages) / how its side ends
+	got             []*adminservice.StreamWorkflowReplicationMessagesRequest
+	sendFail        bool
+	sendErr         error // what a failing Send reports (default errC06); grpc client streams report io.EOF once the stream is done
+	closeSend       int
 	closeSendStalls bool
-	md        metadata.MD
-	opened    bool
+	sendBlocks      bool
+	md              metadata.MD
+	opened          bool
 }
 
 func (s *fwSrc) Context() context.Context { return s.ctx }
@@ -82,6 +83,11 @@ func (s *fwSrc) Recv() (*adminservice.StreamWorkflowReplicationMessagesResponse,
 	}
 }
 func (s *fwSrc) Send(m *adminservice.StreamWorkflowReplicationMessagesRequest) error {
+	if s.sendBlocks {
+		// flow control: the serving cluster is not reading; Send returns when the stream's context ends
+		<-s.ctx.Done()
+		return s.ctx.Err()
+	}
 	if s.sendFail {
 		if s.sendErr != nil {
 			return s.sendErr
@@ -104,13 +110,19 @@ func (s *fwSrc) CloseSend() error {
 
 type fwAdminClient struct {
 	adminservice.AdminServiceClient
-	src     *fwSrc
-	openErr error
+	src        *fwSrc
+	openErr    error
+	openBlocks bool
 }
 
 func (c *fwAdminClient) StreamWorkflowReplicationMessages(ctx context.Context, opts ...grpc.CallOption) (adminservice.AdminService_StreamWorkflowReplicationMessagesClient, error) {
 	if c.openErr != nil {
 		return nil, c.openErr
+	}
+	if c.openBlocks {
+		// no connection to the serving cluster available: the open waits until its context ends
+		<-ctx.Done()
+		return nil, ctx.Err()
 	}
 	c.src.ctx = ctx
 	c.src.opened = true
@@ -157,6 +169,8 @@ func verifHarness_C06_forwarder() {
 		lcm = LCMParameters{LCM: 6, TargetShardCount: 2}
 		verifReach("lcm-mode")
 	}
+	openBlocks := verifParam("blocked", 0) == 1 && verifChoose("outgoing-open", 2) == 1
+	client.openBlocks = openBlocks
 	go func() {
 		retErr = handleStream(ini, metadata.Pairs("a", "b"),
 			history.ClusterShardID{ClusterID: 1, ShardID: 3}, history.ClusterShardID{ClusterID: 2, ShardID: 3},
@@ -165,6 +179,17 @@ func verifHarness_C06_forwarder() {
 		returned = true
 	}()
 	verifQuiesce()
+	if openBlocks {
+		// the initiator goes away while the proxy is still waiting for a connection to the serving cluster
+		verifAction("initiator-cancels-while-outgoing-open-is-blocked")
+		initCancel()
+		verifQuiesce()
+		verifQuiesce()
+		verifReach("blocked-open-abandoned")
+		verifAssert(returned, "handler-returns-when-either-side-ends")
+		verifAssert(verifLiveThreads() == 0, "no-relay-worker-left-running")
+		return
+	}
 
 	nSrc, nInit := 0, 0
 	ended := false
@@ -204,7 +229,7 @@ func verifHarness_C06_forwarder() {
 		case 2:
 			ended = true
 			src.closeSendStalls = verifParam("stall", 0) == 1 && verifChoose("close-send", 2) == 1
-			kind := verifChoose("ending", 11)
+			kind := verifChoose("ending", 11+verifParam("blocked", 0))
 			switch kind {
 			case 0:
 				verifAction("source-eof")
@@ -241,6 +266,14 @@ func verifHarness_C06_forwarder() {
 				verifAction("send-to-source-fails-with-eof")
 				src.sendFail, src.sendErr = true, io.EOF
 				ini.in <- c06Event{req: c06Req(9)}
+			case 11:
+				// the ack relay is stuck in a Send the serving cluster does not read; the initiator goes away
+				verifAction("initiator-cancels-while-send-to-source-is-blocked")
+				src.sendBlocks = true
+				ini.in <- c06Event{req: c06Req(9)}
+				verifQuiesce()
+				initCancel()
+				verifReach("blocked-send-abandoned")
 			case 10:
 				verifAction("send-to-initiator-fails-with-eof")
 				ini.sendFail, ini.sendErr = true, io.EOF
